@@ -234,9 +234,19 @@ def make_scenario(streams, quarantine=()):
                  and not set(st.descendants(b)) & set([a] + st.descendants(a))]
         if cands:
             a, l, b = r.choice(cands)
-            sc['links'] = [x for x in sc['links'] if x not in ([l, b], [b, a])] + [[l, b], [b, a]]
+            # orientation drawn from its own stream (added late: every other scenario keeps its seed).
+            # 'down': l waits for b, b waits for the summary a (closes through a's children);
+            # 'up'  : the summary a waits for b, b waits for a descendant d of a (closes through the
+            #         predecessors d inherits from an ancestor that may be several levels up)
+            if streams('hier_orient').random() < 0.5:
+                new = [[l, b], [b, a]]
+            else:
+                deep = [d for d in st.descendants(a) if st.parent.get(d) != a] or st.descendants(a)
+                d = streams('hier_orient').choice(sorted(deep))
+                new = [[a, b], [b, d]]
+            sc['links'] = [x for x in sc['links'] if x not in new] + new
             if direct_cycle(Struct(sc)):
-                sc['links'] = [[l, b], [b, a]]
+                sc['links'] = new
         else:
             klass = 'ok'
     # resources
